@@ -260,13 +260,13 @@ pub assume_specification [TypeAssertion::new] (cast_to: TypeInfo) -> (r: TypeAss
     ]
 
 LABELS = {
-    "C02.luau_context_marks": dict(props=["C02"], text="the mark_* functions return a context that carries at least the mark they are named after and every mark the context had (a context with more marks keeps more parentheses, never fewer)"),
-    "C02.luau_entry_points": dict(props=["C02"], text="format_type_info, format_hangable_type_info(_internal), format_type_assertion(_on_new_line), format_type_specifier: the type they are given is formatted for the empty context (TypeInfoContext::new is all-false), hung or not, so what format_type_info_internal / hang_type_info guarantee holds for the cast / annotation they return"),
-    "C02.luau_type_members_keep_parentheses": dict(props=["C02"], text="format_type_info_internal: `(T)` loses its parentheses only where keep_parentheses(T, context) says they are not needed; the members of a union / intersection, the base of an optional and the type of a variadic are formatted for the context that carries the matching mark"),
-    "C02.luau_type_loop": dict(props=["C02"], text="format_type_info_internal, union / intersection loops: the members pushed so far correspond one to one to the input's, each formatted for the marked context"),
-    "C02.luau_hang_members_keep_parentheses": dict(props=["C02"], text="hang_type_info: every member `(T)` of a hung union / intersection whose parentheses are needed under the union (intersection) mark is formatted for a context that carries the mark, so it comes back in parentheses; same number of members"),
-    "C02.luau_hang_loop": dict(props=["C02"], text="hang_type_info loop invariant: the members pushed so far correspond one to one to the input's, each formatted for the marked context"),
-    "C02.luau_type_parentheses_kept": dict(props=["C02"], text="keep_parentheses: parentheses around a single Luau type are kept wherever the grammar reads the type differently without them (function type before `?` / `|` / `&`, union under `?` / `...` / `&`, optional under `&`, intersection under `?` / `...` / `|`, any generic argument)"),
+    "C02.luau_context_marks": dict(props=["C02", "C01"], text="the mark_* functions return a context that carries at least the mark they are named after and every mark the context had (a context with more marks keeps more parentheses, never fewer)"),
+    "C02.luau_entry_points": dict(props=["C02", "C01"], text="format_type_info, format_hangable_type_info(_internal), format_type_assertion(_on_new_line), format_type_specifier: the type they are given is formatted for the empty context (TypeInfoContext::new is all-false), hung or not, so what format_type_info_internal / hang_type_info guarantee holds for the cast / annotation they return"),
+    "C02.luau_type_members_keep_parentheses": dict(props=["C02", "C01"], text="format_type_info_internal: `(T)` loses its parentheses only where keep_parentheses(T, context) says they are not needed; the members of a union / intersection, the base of an optional and the type of a variadic are formatted for the context that carries the matching mark"),
+    "C02.luau_type_loop": dict(props=["C02", "C01"], text="format_type_info_internal, union / intersection loops: the members pushed so far correspond one to one to the input's, each formatted for the marked context"),
+    "C02.luau_hang_members_keep_parentheses": dict(props=["C02", "C01"], text="hang_type_info: every member `(T)` of a hung union / intersection whose parentheses are needed under the union (intersection) mark is formatted for a context that carries the mark, so it comes back in parentheses; same number of members"),
+    "C02.luau_hang_loop": dict(props=["C02", "C01"], text="hang_type_info loop invariant: the members pushed so far correspond one to one to the input's, each formatted for the marked context"),
+    "C02.luau_type_parentheses_kept": dict(props=["C02", "C01"], text="keep_parentheses: parentheses around a single Luau type are kept wherever the grammar reads the type differently without them (function type before `?` / `|` / `&`, union under `?` / `...` / `&`, optional under `&`, intersection under `?` / `...` / `|`, any generic argument)"),
 }
 
 HEADER_LUAU = HEADER + "use full_moon::ast::luau::{TypeInfo, TypeUnion, TypeIntersection, TypeSpecifier};\nuse full_moon::ast::punctuated::Pair;\n"
